@@ -996,17 +996,57 @@ Definition v6_parse (s : list N) : option N :=
 (* NLRI: IPv4 / IPv6 unicast prefixes and labeled prefixes               *)
 Inductive profile : Type := Debug | Release.
 
+(* rd::RouteDistinguisher and its API message *)
+Inductive rd : Type :=
+| RD2 (admin assigned : N)       (* TwoOctetAs { admin: u16, assigned: u32 } *)
+| RDIp (admin assigned : N)      (* Ipv4 { admin: Ipv4Addr, assigned: u16 } *)
+| RD4 (admin assigned : N).      (* FourOctetAs { admin: u32, assigned: u16 } *)
+
+Inductive api_rd : Type :=
+| ARdMissing
+| ARd2 (admin assigned : N)
+| ARdIp (admin : list N) (assigned : N)
+| ARd4 (admin assigned : N).
+
 Inductive nlri : Type :=
 | NV4 (addr mask : N)
 | NV6 (addr mask : N)
 | NLab4 (labels : list N) (addr mask : N)
-| NLab6 (labels : list N) (addr mask : N).
+| NLab6 (labels : list N) (addr mask : N)
+| NVpn4 (labels : list N) (d : rd) (addr mask : N)
+| NVpn6 (labels : list N) (d : rd) (addr mask : N).
 
 Inductive api_nlri : Type :=
 | PMissing
 | PPrefix (s : list N) (len : N)
 | PLabeled (labels : list N) (s : list N) (len : N)
+| PVpn (labels : list N) (d : api_rd) (s : list N) (len : N)
 | POther.
+
+Definition rd_to_api (d : rd) : api_rd :=
+  match d with
+  | RD2 a b => ARd2 a b
+  | RDIp a b => ARdIp (ip4_to_string a) b
+  | RD4 a b => ARd4 a b
+  end.
+
+Definition rd_from_api (d : api_rd) : option rd :=
+  match d with
+  | ARdMissing => None
+  | ARd2 a b => if 65535 <? a then None else Some (RD2 a b)
+  | ARdIp s b => match ip4_of_string s with
+                 | Some a => if 65535 <? b then None else Some (RDIp a b)
+                 | None => None
+                 end
+  | ARd4 a b => if 65535 <? b then None else Some (RD4 a b)
+  end.
+
+Definition rd_bytes (d : rd) : list N :=
+  match d with
+  | RD2 a b => [0; 0] ++ be16 a ++ be32 b
+  | RDIp a b => [0; 1] ++ be32 a ++ be16 b
+  | RD4 a b => [0; 2] ++ be32 a ++ be16 b
+  end.
 
 Section Nlri.
   Variable v6p : N -> list N.
@@ -1018,6 +1058,8 @@ Section Nlri.
     | NV6 a m => PPrefix (v6p a) m
     | NLab4 ls a m => PLabeled ls (ip4_to_string a) m
     | NLab6 ls a m => PLabeled ls (v6p a) m
+    | NVpn4 ls d a m => PVpn ls (rd_to_api d) (ip4_to_string a) m
+    | NVpn6 ls d a m => PVpn ls (rd_to_api d) (v6p a) m
     end.
 
   Definition SLASH : N := 47.
@@ -1051,6 +1093,23 @@ Section Nlri.
                 if (128 <? len) || Nat.eqb (length ls) 0 || (255 <? 24 * N.of_nat (length ls) + len) then None
                 else Some (NLab6 (map (fun l => l mod 1048576) ls) a len)
             | None => None
+            end
+        end
+    | PVpn ls d s len =>
+        match rd_from_api d with
+        | None => None
+        | Some d' =>
+            match ip4_of_string s with
+            | Some a =>
+                if (32 <? len) || Nat.eqb (length ls) 0 || (255 <? 24 * N.of_nat (length ls) + 64 + len) then None
+                else Some (NVpn4 (map (fun l => l mod 1048576) ls) d' a len)
+            | None =>
+                match v6r s with
+                | Some a =>
+                    if (128 <? len) || Nat.eqb (length ls) 0 || (255 <? 24 * N.of_nat (length ls) + 64 + len) then None
+                    else Some (NVpn6 (map (fun l => l mod 1048576) ls) d' a len)
+                | None => None
+                end
             end
         end
     | PMissing | POther => None
@@ -1093,6 +1152,11 @@ Section Nlri.
         let lb := (24 * N.of_nat (length ls)) mod 256 in
         if (255 <? lb + m) && (match p with Debug => true | Release => false end) then Panic 7
         else b <- addr_bytes width a m ;; Ok ((lb + m) mod 256 :: label_bytes ls ++ b)
+    | NVpn4 ls d a m | NVpn6 ls d a m =>
+        let width := match n with NVpn4 _ _ _ _ => 4%nat | _ => 16%nat end in
+        let lb := (24 * N.of_nat (length ls)) mod 256 in
+        if (255 <? lb + 64 + m) && (match p with Debug => true | Release => false end) then Panic 7
+        else b <- addr_bytes width a m ;; Ok ((lb + 64 + m) mod 256 :: label_bytes ls ++ rd_bytes d ++ b)
     end.
 End Nlri.
 
@@ -1102,6 +1166,16 @@ Definition v_nlri (n : nlri) : val :=
   | NV6 a m => VL [VI 6; VNs (to_bytes 16 a); VN m]
   | NLab4 ls a m => VL [VI 14; VNs ls; VN a; VN m]
   | NLab6 ls a m => VL [VI 16; VNs ls; VNs (to_bytes 16 a); VN m]
+  | NVpn4 ls d a m => VL [VI 24; VNs ls; VNs (rd_bytes d); VN a; VN m]
+  | NVpn6 ls d a m => VL [VI 26; VNs ls; VNs (rd_bytes d); VNs (to_bytes 16 a); VN m]
+  end.
+
+Definition v_api_rd (d : api_rd) : val :=
+  match d with
+  | ARdMissing => VL [VI 0]
+  | ARd2 a b => VL [VI 1; VN a; VN b]
+  | ARdIp s b => VL [VI 2; VNs s; VN b]
+  | ARd4 a b => VL [VI 3; VN a; VN b]
   end.
 
 Definition v_api_nlri (x : api_nlri) : val :=
@@ -1109,6 +1183,7 @@ Definition v_api_nlri (x : api_nlri) : val :=
   | PMissing => VL [VI 0]
   | PPrefix s l => VL [VI 1; VNs s; VN l]
   | PLabeled ls s l => VL [VI 2; VNs ls; VNs s; VN l]
+  | PVpn ls d s l => VL [VI 3; VNs ls; v_api_rd d; VNs s; VN l]
   | POther => VL [VI 99]
   end.
 
